@@ -319,6 +319,26 @@ func mirrorView(m []mentry) string {
 	return "[" + b.String() + "]"
 }
 
+// mirrorConforms: the real client knows what the specification's client knows, or less about an entry it was
+// never told about. (The code aliases the flag set of a queued EXISTS with the appending session's snapshot, so
+// a flag set there before the EXISTS is flushed arrives inside the EXISTS instead of as a separate FETCH: the
+// client simply learns nothing, which no property forbids. A real entry that IS known must agree.)
+func mirrorConforms(real []mentry, spec []Entry) bool {
+	if len(real) != len(spec) {
+		return false
+	}
+	for i := range real {
+		if real[i].uid != 0 && real[i].uid != spec[i].UID {
+			return false
+		}
+		specKnown := !(len(spec[i].F) == 1 && spec[i].F[0] == "?")
+		if real[i].known && (!specKnown || !sameFlags(real[i].flags, spec[i].F)) {
+			return false
+		}
+	}
+	return true
+}
+
 func specMirrorView(es []Entry) string {
 	var b strings.Builder
 	for i, e := range es {
@@ -485,11 +505,17 @@ func (r *Rig) Exec(idx int, st *Step, prev *Step) *Drift {
 				if fmt.Sprint(src) != fmt.Sprint(srcU) && len(src) == len(srcU) {
 					return r.drift(idx, "uid", "COPYUID source UIDs %v, addressed %v", src, srcU)
 				}
-				if prev != nil {
-					sn := prev.Snaps[st.S]
-					for i, x := range p {
-						if i < len(dst) && x >= 1 && x <= len(sn) {
-							r.noteUID(idx, st, d, dst[i], sn[x-1].M, "COPYUID")
+				if len(src) != len(dst) {
+					r.find("C04", "C04/copyuid-unpaired/"+st.Act, fmt.Sprintf("step %d %s: COPYUID lists %d source UIDs %v and %d destination UIDs %v", idx, st.Describe(), len(src), src, len(dst), dst), idx)
+				} else if prev != nil {
+					// the announcement pairs source UID i with destination UID i
+					byUID := map[int]string{}
+					for _, e := range prev.Snaps[st.S] {
+						byUID[e.UID] = e.M
+					}
+					for i := range src {
+						if m, ok := byUID[src[i]]; ok {
+							r.noteUID(idx, st, d, dst[i], m, "COPYUID")
 						}
 					}
 				}
@@ -539,6 +565,11 @@ func (r *Rig) Exec(idx int, st *Step, prev *Step) *Drift {
 	}
 
 	if s != nil && st.Act != "Deliver" {
+		for _, l := range res.Untagged {
+			if t := l.String(); len(t) < 160 && !strings.HasPrefix(t, "* OK") && !strings.HasPrefix(t, "* FLAGS") {
+				r.logf("      %s", t)
+			}
+		}
 		if res.Closed || res.TimedOut {
 			if len(r.pan.got) > 0 {
 				r.find("C19", "panic", fmt.Sprintf("step %d %s: server panic: %s", idx, st.Describe(), r.pan.got[0]), idx)
@@ -577,8 +608,8 @@ func (r *Rig) Exec(idx int, st *Step, prev *Step) *Drift {
 		if st.Sel[name] == "none" {
 			continue
 		}
-		if got, want := mirrorView(rs.mirror), specMirrorView(st.Mirrors[name]); got != want {
-			return r.drift(idx, "mirror", "after %s the client of %s has %s, specification predicts %s", st.Describe(), name, got, want)
+		if !mirrorConforms(rs.mirror, st.Mirrors[name]) {
+			return r.drift(idx, "mirror", "after %s the client of %s has %s, specification predicts %s", st.Describe(), name, mirrorView(rs.mirror), specMirrorView(st.Mirrors[name]))
 		}
 	}
 	// update queues: what was enqueued is exactly what the specification says
